@@ -141,6 +141,8 @@ L_LATER = '[ link ]\nresname "A"\n[ bonds ]\nBB >BB 1 0.70 700\n'
 L_STAR = '[ link ]\nresname "A|B"\n[ bonds ]\nSC *BB 1 0.80 800\n'
 L_REPL = '[ link ]\nresname "A|B"\n[ atoms ]\nBB {"replace": {"atype": "Q"}}\n[ bonds ]\nBB +BB 1 0.45 450\n'
 L_CAP = '[ link ]\nresname "A"\n[ atoms ]\nBB {"replace": {"atype": "CAP"}}\n[ non-edges ]\nBB +BB\n'
+# the same end cap with a pattern that always holds for an A residue: a link is applied only if the non-edge criterion AND a pattern hold
+L_CAP_PATTERN = '[ link ]\nresname "A"\n[ atoms ]\nBB {"replace": {"atype": "CAP"}}\n[ non-edges ]\nBB +BB\n[ patterns ]\nBB {"atype": "TA"}\n'
 L_PREV = '[ link ]\nresname "A|B"\n[ bonds ]\nBB -BB 1 0.42 420\n'
 L_PATTERN = '[ link ]\nresname "A|B"\n[ bonds ]\nBB +BB 1 0.60 600\n[ patterns ]\nBB +BB {"atype": "TB"}\n'
 L_OVER1 = '[ link ]\nresname "A|B"\n[ bonds ]\nBB +BB 1 0.40 400\n'
@@ -258,6 +260,7 @@ CATALOGUE = {
     "replace": (L_REPL, rule_replace),
     "end cap with non-edge": (L_BOND + L_CAP, rule_cap_after(rule_next_bond("ABD", ("1", "0.40", "400")))),
     "pattern": (L_PATTERN, rule_pattern),
+    "end cap with non-edge and pattern": (L_BOND + L_CAP_PATTERN, rule_cap_after(rule_next_bond("ABD", ("1", "0.40", "400")))),
     "resname on some atoms only": (L_ATOM_RESNAME, rule_atom_resname),
     "labelled (circle) link": (L_CIRCLE, rule_circle),
     "centre with > and >> neighbours": (L_GT_GTGT, rule_gt_gtgt),
@@ -270,7 +273,7 @@ CATALOGUE = {
 Q_LINKS = ["next bond", "three-residue angle", "later residue (>)", "other residue (*)", "replace", "end cap with non-edge",
            "same atoms, same version: last wins", "pattern", "remove atom at chain start", "remove atom at chain end",
            "resname on some atoms only", "centre with > and >> neighbours", "labelled (circle) link",
-           "replace, then a link typed on the replaced attribute"]
+           "replace, then a link typed on the replaced attribute", "end cap with non-edge and pattern"]
 
 
 def observed(meta):
